@@ -9,7 +9,7 @@ MODES = ['left', 'linear', 'right', 'hull']
 RULE = ('valid curves (dyadic families) x interior knee subsets (>= 2 knees) x 4 linkages x thresholds x 4 ranking modes + the corner variant. '
         'Correspondence is oracle-fed: labels from the real linkage (C11), per-cluster scores from knee_ranking.smooth_ranking / the hull-mode two-chord error '
         '(evaluated by the harness from its definition with the package\'s shortest_distance_points) / rank_corners_triangle, lower hull from graham_scan_lower (C18); '
-        'exact when the scores of a cluster are pairwise distinct, relational (chosen member attains the maximum) on ties. Predicates on the REAL output: strictly '
+        'the ranking score is ALSO recomputed independently (best-fit R2 of the documented spans x relative height) and compared with smooth_ranking; exact when the scores of a cluster are pairwise distinct, relational (chosen member attains the maximum) on ties. Predicates on the REAL output: strictly '
         'increasing subset, exactly one member per cluster with maximal score (left/linear/right), hull mode completes with at most one per cluster and none from a '
         'cluster without a hull point in its span, corner variant picks a maximiser. non-trivial = some cluster has >= 2 members; (config, curve, knees) new')
 ASSUMPTIONS = ['knees are interior indices (1..n-2), ascending, >= 2 of them; t > 0']
